@@ -64,4 +64,5 @@ def problems(env, cfg, tier):
         return out
 
     return [dict(title=f"RobotWarehouse.step(physical consistency)@{cfg}", args=(state, a), requires=req, ensures=ens, targets=[type(env).step, type(env)._update_state],
+                 tree_ops=("arith",),   # engine term-shape option (semantics-preserving): the default "arith,index" combination makes these queries 10x slower
                  timeout=300, workers=4)]
